@@ -7,7 +7,7 @@ export GOFLAGS=-mod=mod GOPROXY=off GOSUMDB=off GOTOOLCHAIN=local
 command -v java >/dev/null
 command -v go >/dev/null
 test -f /opt/veriftools/tla/tla2tools.jar
-cp /repo/go.sum harness/go.sum
+python3 checks/gomod.py
 S=$(mktemp -d)
 trap 'rm -rf "$S"' EXIT
 cp specs/*.tla specs/mc/*.tla specs/gen/*.tla specs/trace/*.tla "$S"/ 2>/dev/null || true
